@@ -125,6 +125,9 @@ def mutate_all(obj, depth=0):
         for v in obj:
             mutate_all(v, depth + 1)
         obj.append('MUTATED')
+    elif isinstance(obj, tuple):
+        for v in obj:               # a tuple cannot be edited, what it holds can (get_references returns (key, entry) pairs)
+            mutate_all(v, depth + 1)
 
 
 NAMES = ['6-31G', 'cc-pVDZ', 'def2-SVP', 'STO-3G', 'LANL2DZ', 'aug-cc-pVDZ', 'pcseg-0']
